@@ -120,6 +120,21 @@ def run(ck, cancels=False):
         tasks.append({"scen": "retry", "params": p, "strat": strat, "gran": "line" if i % 5 == 0 else "sync",
                       "facts": facts_of(p)})
     ck.run_and_validate(tasks, TRACE)
+    # directed two-preemption sweeps: two submissions whose attempts end at the same instant with different
+    # back-offs, against each other and against the submit thread's scan / wait
+    from .. import core as _core
+    pp = {"flavour": "manual", "policy": POLICY,
+          "jobs": [{"script": ["E", "E", "V"], "S": 0, "C": False,
+                    "percall": {"kind": "exc", "max_attempts": 3, "sleep": 400, "exponent": 1, "max_sleep": 120000}},
+                   {"script": ["E", "E", "V"], "S": 0, "C": False,
+                    "percall": {"kind": "exc", "max_attempts": 3, "sleep": 100, "exponent": 1, "max_sleep": 120000}}],
+          "dur": 300, "horizon": 4000}
+    swept = _core.phase_tasks("retry", pp, [("RetryExecutor-r", "env2"), ("env2", "RetryExecutor-r")],
+                              range(1, 60, 5 if quick else 1), range(1, 40, 6 if quick else 1), facts=facts_of(pp),
+                              prefix=[["env1", 10000]])
+    swept += _core.phase_tasks("retry", pp, [("env1", "env2"), ("env2", "env1")],
+                               range(1, 50, 6 if quick else 1), range(1, 40, 7 if quick else 1), facts=facts_of(pp))
+    ck.run_and_validate(swept, TRACE, nontrivial=lambda t, r: True)
     ck.assumptions += [
         "back-off arithmetic in integer ticks (1 ms); attempt end = InvokeEnd; SLACK = 3 ticks",
         "policy calls observed through a recording subclass of ExceptionRetryPolicy / a scripted RetryPolicy",
